@@ -14,26 +14,26 @@ namespace SpiceEv
 open SpiceEv.PeakLoadWindow
 variable {α B : Type} [Field α] [LinearOrder α] [IsStrictOrderedRing α]
 
-/-- **Vehicles never break the limit when the connector has no surplus.**  For a connector without stationary
-battery whose loads before the step (fixed load − generation) are non-negative and within the currently valid
-limit `cur_max_power`: after `step_gc` — balanced plan outside windows, peak shaving and bisection inside, for
-any number of vehicles, any prognosis, event table, windows and curves — the connector's load is still within
-the limit (and not below what it was: no vehicle is discharged).  Battery: `BatLaw` (0 ≤ avg ≤ request) and exact
-target-power delivery (`LoadIdem`); exact sums (`env.sum = List.sum`).
+/-- **Vehicles never break the limit.**  For a connector without stationary battery whose loads before the step
+(fixed load − generation, surplus allowed) are at most the currently valid limit `cur_max_power ≥ 0`: after `step_gc` —
+balanced plan outside windows, peak shaving and bisection inside, surplus handed out once through `clamp_power`, for
+any number of vehicles, any prognosis, event table, windows and curves — the connector's load is still at most the
+limit, and not below what it was (no vehicle is discharged).  Battery: `BatLaw` (0 ≤ avg ≤ request) and exact delivery
+(`LoadIdem`, `LoadMin`: the battery delivers `min(target, feasible)`); exact sums (`env.sum = List.sum`).
 
-`_partial`: (a) the hypothesis `0 ≤ load` excludes a generation surplus: with a surplus the final loop
-(`vehicle.schedule -= min(timesteps[0]["power"], 0)`) gives the WHOLE surplus to EVERY vehicle (finding D6, keys
-`…:draw:vehicles:in_window` / `…:outside_window`) — witness below; (b) stationary batteries at the connector are
-covered by `C04_peak_load_window_limit_partial` below. -/
+This is a theorem about the REPAIRED final loop (fixes/PLW2.diff); on the pinned code it needed `0 ≤ load` (finding D6:
+the whole surplus to every vehicle).  `_partial`: what is still excluded is a battery without exact delivery —
+mechanism (c) of the notes: the shaving/bisection stages re-simulate the accounted level of the current step from its
+own average (`battery.py` at negative SoC, finding B14); witness `oddOps` below.  Stationary batteries: next theorem. -/
 theorem C04_peak_load_window_vehicles_partial (ops : BatOps α B) (law : BatLaw ops) (idem : LoadIdem ops)
-    (env : PEnv α) (hi : 0 < env.interval) (hsum : ∀ l, env.sum l = l.sum) (w w' : PWorld α B) (g : PGc α)
-    (level : String) (cmds : List (String × α))
+    (lmin : LoadMin ops) (env : PEnv α) (hi : 0 < env.interval) (hsum : ∀ l, env.sum l = l.sum)
+    (w w' : PWorld α B) (g : PGc α) (level : String) (cmds : List (String × α))
     (hb : ∀ b ∈ w.batteries, (b.parent == g.gc.id) = false)
-    (hs : 0 ≤ g.gc.currentLoad) (hlim : g.gc.currentLoad ≤ g.gc.curMax)
+    (hcm : 0 ≤ g.gc.curMax) (hlim : g.gc.currentLoad ≤ g.gc.curMax)
     (h : stepGc ops env w g level = .ok (w', cmds)) :
     ∀ g' ∈ w'.gcs, g'.gc.id = g.gc.id →
       g'.gc.curMax = g.gc.curMax ∧ g.gc.currentLoad ≤ g'.gc.currentLoad ∧ g'.gc.currentLoad ≤ g.gc.curMax :=
-  stepGc_limit_nobat ops law idem env hi hsum w g level w' cmds hb hs hlim h
+  stepGc_limit_nobat ops law idem lmin env hi hsum w g level w' cmds hb hcm hlim h
 
 /-- three vehicles (100 kWh, up to 50 kW, SoC = desired SoC = 0.5, leaving in two hours) at 50 kW stations of
 the example connector (limit 20 kW) -/
@@ -56,17 +56,26 @@ example (w' : PWorld ℚ ℚ) (cmds : List (String × ℚ))
     (h : stepGc (toyOps 10 11) exEnv (exWorld [("load", 18)] 11 (1/2) 1 2) (exGc [("load", 18)]) "MV" = .ok (w', cmds)) :
     ∀ g' ∈ w'.gcs, g'.gc.id = "G" → g'.gc.curMax = 20 ∧ (exGc [("load", 18)]).gc.currentLoad ≤ g'.gc.currentLoad ∧
       g'.gc.currentLoad ≤ 20 :=
-  C04_peak_load_window_vehicles_partial (toyOps 10 11) (toyOps_law 10 11) (toyOps_idem 10 11) exEnv
-    (by decide) (fun _ => rfl) _ w' (exGc [("load", 18)]) "MV" cmds (by simp [exWorld])
+  C04_peak_load_window_vehicles_partial (toyOps 10 11) (toyOps_law 10 11) (toyOps_idem 10 11) (toyOps_lmin 10 11)
+    exEnv (by decide) (fun _ => rfl) _ w' (exGc [("load", 18)]) "MV" cmds (by simp [exWorld])
     (by decide +kernel) (by decide +kernel) h
 
-/-- **witness of the excluded situation (the code's behaviour, finding D6):** 20 kW generation surplus at a 20 kW
-limit (fixed load and generation alone respect it), three vehicles that need nothing: each is offered the whole
-surplus, the connector ends at +40 kW -/
+/-- the situation of finding D6 on the repaired loop: 20 kW generation surplus at a 20 kW limit, three vehicles that
+need nothing: the first takes the surplus, nothing is left for the others, the connector ends at 0 kW
+(pinned code: 20 kW to each, +40 kW) -/
 example : cmdsOf (stepGc (toyOps 100 50) exEnv (exThree [("pv", -20)]) (exGc [("pv", -20)]) "MV")
-      = [("cs1", 20), ("cs2", 20), ("cs3", 20)] ∧
-    loadOf (stepGc (toyOps 100 50) exEnv (exThree [("pv", -20)]) (exGc [("pv", -20)]) "MV") = [40] := by
+      = [("cs1", 20)] ∧
+    loadOf (stepGc (toyOps 100 50) exEnv (exThree [("pv", -20)]) (exGc [("pv", -20)]) "MV") = [0] := by
   decide +kernel
+
+/-- … and the theorem applies to it (surplus allowed) -/
+example (w' : PWorld ℚ ℚ) (cmds : List (String × ℚ))
+    (h : stepGc (toyOps 100 50) exEnv (exThree [("pv", -20)]) (exGc [("pv", -20)]) "MV" = .ok (w', cmds)) :
+    ∀ g' ∈ w'.gcs, g'.gc.id = "G" → g'.gc.curMax = 20 ∧ (exGc [("pv", -20)]).gc.currentLoad ≤ g'.gc.currentLoad ∧
+      g'.gc.currentLoad ≤ 20 :=
+  C04_peak_load_window_vehicles_partial (toyOps 100 50) (toyOps_law 100 50) (toyOps_idem 100 50) (toyOps_lmin 100 50)
+    exEnv (by decide) (fun _ => rfl) _ w' (exGc [("pv", -20)]) "MV" cmds (by simp [exThree])
+    (by decide +kernel) (by decide +kernel) h
 
 /-- **the hypothesis of exact delivery cannot be dropped (mechanism (c) of the notes):** a connector with a 10 kW limit
 and no load at all, two empty vehicles that leave in an hour, and the battery `oddOps` (obeys `BatLaw`, violates
@@ -86,18 +95,19 @@ example :
 
 example : BatLaw oddOps ∧ ¬ LoadIdem oddOps := ⟨oddOps_law, oddOps_not_idem⟩
 
-/-- **Vehicles and stationary batteries never break the limit when there is no surplus and `self.peak_power` is
-within the limit.**  As above, now with any number of stationary batteries at the connector (first loop: discharge
-above / charge below `self.peak_power` inside a window, balanced charging until the window change outside; second
-loop: restore, add surplus, apply): if moreover `0 ≤ self.peak_power[gc] ≤ cur_max_power`, the connector's load after
-`step_gc` is within `[0, cur_max_power]`.  Well-formedness: the batteries of the connector have distinct ids that
-are neither keys of the connector's loads nor station ids of vehicles, and non-negative minimum charging powers.
+/-- **Vehicles and stationary batteries never break the limit when there is no surplus.**  As above, now with any
+number of stationary batteries at the connector (first loop: discharge above / charge below
+`min(self.peak_power, cur_max_power)` inside a window, balanced charging until the window change outside; second loop:
+restore, add surplus, apply): if the loads before the step are within `[0, cur_max_power]` and `self.peak_power ≥ 0`, the
+connector's load after `step_gc` is within `[0, cur_max_power]`.  Well-formedness: the batteries of the connector have
+distinct ids that are neither keys of the connector's loads nor station ids of vehicles, and non-negative minimum
+charging powers.
 
-`_partial`: excluded are exactly (a) a generation surplus before the step (finding D6, keys
-`C04:…:peak_load_window:draw:vehicles:*`) and (b) `self.peak_power[gc] > cur_max_power` (key
-`C04:…:peak_load_window:draw:batteries:in_window`): inside a window a battery is charged up to `self.peak_power`, not up
-to the limit — `peak_power` is the maximum of the loads inside windows over the whole event table and of all earlier
-in-window loads, and a grid operator signal may have lowered `cur_max_power` below it.  Witness below. -/
+This is a theorem about the REPAIRED in-window branch (fixes/PLW1.diff); on the pinned code it needed
+`self.peak_power ≤ cur_max_power` (key `C04:…:peak_load_window:draw:batteries:in_window`).  `_partial`: still excluded are
+(a) a generation surplus before the step TOGETHER WITH stationary batteries (not a known failure: the second battery loop
+then adds the remaining surplus to the planned powers battery by battery, updating `gc_loads` in between; unproved), and
+(b) a battery without exact target-power delivery (mechanism (c)). -/
 theorem C04_peak_load_window_limit_partial (ops : BatOps α B) (law : BatLaw ops) (idem : LoadIdem ops)
     (env : PEnv α) (hi : 0 < env.interval) (hsum : ∀ l, env.sum l = l.sum) (w w' : PWorld α B) (g : PGc α)
     (level : String) (cmds : List (String × α))
@@ -105,12 +115,12 @@ theorem C04_peak_load_window_limit_partial (ops : BatOps α B) (law : BatLaw ops
     (hbkey : ∀ b ∈ w.batteries, (b.parent == g.gc.id) = true → sdGet g.gc.loads b.id = none)
     (hbcs : ∀ b ∈ w.batteries, (b.parent == g.gc.id) = true → ∀ pv ∈ w.vehicles, pv.v.cs ≠ some b.id)
     (hbmin : ∀ b ∈ w.batteries, (b.parent == g.gc.id) = true → 0 ≤ b.minChargingPower)
-    (hpk0 : 0 ≤ g.peak) (hpk : g.peak ≤ g.gc.curMax)
+    (hpk0 : 0 ≤ g.peak)
     (hs : 0 ≤ g.gc.currentLoad) (hlim : g.gc.currentLoad ≤ g.gc.curMax)
     (h : stepGc ops env w g level = .ok (w', cmds)) :
     ∀ g' ∈ w'.gcs, g'.gc.id = g.gc.id →
       g'.gc.curMax = g.gc.curMax ∧ 0 ≤ g'.gc.currentLoad ∧ g'.gc.currentLoad ≤ g.gc.curMax :=
-  stepGc_limit_bat ops law idem env hi hsum w g level w' cmds hbid hbkey hbcs hbmin hpk0 hpk hs hlim h
+  stepGc_limit_bat ops law idem env hi hsum w g level w' cmds hbid hbkey hbcs hbmin hpk0 hs hlim h
 
 /-- a connector with a 5 kW limit, 4 kW fixed load and the given `peak_power`, and one stationary battery -/
 def exBatGc (peak : ℚ) : PGc ℚ := ⟨⟨"G", 5, none, [("load", 4)]⟩, "op", some "MV", none, peak⟩
@@ -127,24 +137,24 @@ example (w' : PWorld ℚ ℚ) (cmds : List (String × ℚ))
     ∀ g' ∈ w'.gcs, g'.gc.id = "G" → g'.gc.curMax = 5 ∧ 0 ≤ g'.gc.currentLoad ∧ g'.gc.currentLoad ≤ 5 :=
   C04_peak_load_window_limit_partial (toyOps 10 11) (toyOps_law 10 11) (toyOps_idem 10 11) (exEnvAt 2)
     (by decide) (fun _ => rfl) _ w' (exBatGc 5) "MV" cmds (by decide +kernel) (by decide +kernel)
-    (by simp [exBatWorld]) (by decide +kernel) (by decide +kernel) (by decide +kernel) (by decide +kernel)
-    (by decide +kernel) h
+    (by simp [exBatWorld]) (by decide +kernel) (by decide +kernel) (by decide +kernel) (by decide +kernel) h
 
-/-- **witness of the excluded situation (b) (the code's behaviour):** the same connector with `peak_power` = 6 kW above
-the 5 kW limit: inside the window the battery is charged with 2 kW, the connector ends at 6 kW -/
-example : loadOf (stepGc (toyOps 10 11) (exEnvAt 2) (exBatWorld 6) (exBatGc 6) "MV") = [6] := by
+/-- the situation of the finding on the repaired branch: the same connector with `peak_power` = 6 kW above the 5 kW
+limit: inside the window the battery is charged with the 1 kW that is left below the LIMIT, the connector ends at 5 kW
+(pinned code: 2 kW, 6 kW) -/
+example : loadOf (stepGc (toyOps 10 11) (exEnvAt 2) (exBatWorld 6) (exBatGc 6) "MV") = [5] := by
   decide +kernel
 
 /-- **The whole step: every connector stays within its limit.**  `PeakLoadWindow.step` is the fold of `step_gc` over the
 connectors, each call working on the world the previous ones left.  If connector ids, vehicle ids and battery ids are
 unique and EVERY connector satisfies the premise `GcOK` before the step (load within `[0, cur_max_power]`, i.e. fixed
-load and generation respect the limit and there is no surplus; `0 ≤ peak_power ≤ cur_max_power`; the batteries at it
+load and generation respect the limit and there is no surplus; `0 ≤ peak_power`; the batteries at it
 have ids that are neither load keys nor station ids, and non-negative minimum powers), then after the step every
 connector's load is within `[0, cur_max_power]`.  The proof needs the frame of `step_gc` (`stepGc_frame`: a call writes only
 its own connector, the battery state of its batteries and battery state / schedule of vehicles).
 
-`_partial`: the excluded situations are those of `C04_peak_load_window_limit_partial` (surplus; `peak_power` above the
-limit; a battery without exact target-power delivery). -/
+`_partial`: the excluded situations are those of `C04_peak_load_window_limit_partial` (a surplus — covered per connector
+without batteries by `C04_peak_load_window_vehicles_partial`; a battery without exact target-power delivery). -/
 theorem C04_peak_load_window_step_limit_partial (ops : BatOps α B) (law : BatLaw ops) (idem : LoadIdem ops)
     (env : PEnv α) (hi : 0 < env.interval) (hsum : ∀ l, env.sum l = l.sum) (w w' : PWorld α B)
     (cmds : List (String × α))
@@ -178,8 +188,8 @@ example (w' : PWorld ℚ ℚ) (cmds : List (String × ℚ)) (h : step (toyOps 10
   simp only [exTwo, List.mem_cons, List.not_mem_nil, or_false] at hg
   rcases hg with rfl | rfl
   · exact ⟨by decide +kernel, by decide +kernel, by decide +kernel, by decide +kernel, by decide +kernel,
-      by decide +kernel, by decide +kernel⟩
+      by decide +kernel⟩
   · exact ⟨by decide +kernel, by decide +kernel, by decide +kernel, by decide +kernel, by decide +kernel,
-      by decide +kernel, by decide +kernel⟩
+      by decide +kernel⟩
 
 end SpiceEv
